@@ -10,12 +10,21 @@ package main
 //	                         ("lookup:after-miss" or "update:after-lookup")
 //	step T                   release T: it runs to its next gate or to completion
 //	upd|delsvc|delshard|prune ...   executed start to end by the scheduling goroutine
+//	dbegin D delshard <sk> | dbegin D prune <sk> <keep>
+//	                         run DeleteShard / PruneShard in goroutine D up to its first unlink
+//	                         ("delete:before-unlink", holding the index lock); while it is parked there
+//	                         only `begin` (which must block on the index lock) and `step D` are allowed;
+//	                         the last `step D` finishes the delete and lets the blocked goroutines run to
+//	                         their first gate
 //	end                      finish every goroutine, print linearizability verdict and final index
 
 import (
+	"bytes"
 	"fmt"
+	"runtime"
 	"strconv"
 	"strings"
+	"sync"
 	"time"
 
 	"istio.io/istio/pilot/pkg/model"
@@ -33,6 +42,8 @@ type thr struct {
 	orphan   bool // its write landed on a shard set that was no longer linked
 	hid      int  // index of its operation in hist
 	at       string // the gate it is parked at
+	isDelete bool   // runs DeleteShard / PruneShard
+	blocked  bool   // started while a delete held the index lock; has not reached a gate yet
 	// the entry this goroutine created itself (nil if it found one)
 	createdPtr *model.EndpointShards
 }
@@ -48,7 +59,6 @@ type schedSUT struct {
 	*sut
 	threads map[string]*thr
 	order   []*thr
-	current *thr
 	unlinks int
 	hist    []histOp
 	line    int
@@ -56,20 +66,65 @@ type schedSUT struct {
 	crashed bool
 	// updates that created the service entry but did not return FullPush (oracle clause new-service-full)
 	newSvcNotFull []string
+	goids    sync.Map // goroutine id -> *thr
+	inflight *thr     // the delete goroutine parked inside DeleteShard / PruneShard
+	waiting  []*thr   // goroutines begun while it was parked, in order
+	dUnlinks int
+	dead     bool // a wait timed out in this case
+	// lookups that got through while a DeleteShard / PruneShard was in progress (oracle clause delete-atomic)
+	notAtomic []string
 }
 
-const gateTimeout = 10 * time.Second
+const blockedWait = 4 * time.Millisecond
+
+// goid returns the id of the calling goroutine (from its stack header "goroutine N [").
+func goid() uint64 {
+	var buf [64]byte
+	b := buf[:runtime.Stack(buf[:], false)]
+	b = bytes.TrimPrefix(b, []byte("goroutine "))
+	if i := bytes.IndexByte(b, ' '); i > 0 {
+		n, _ := strconv.ParseUint(string(b[:i]), 10, 64)
+		return n
+	}
+	return 0
+}
+
+func (s *schedSUT) self() *thr {
+	if v, ok := s.goids.Load(goid()); ok {
+		return v.(*thr)
+	}
+	return nil
+}
+
+func (s *schedSUT) spawn(t *thr, f func() string) {
+	go func() {
+		s.goids.Store(goid(), t)
+		defer func() {
+			if r := recover(); r != nil {
+				t.done <- "crash"
+			}
+		}()
+		t.done <- f()
+	}()
+}
+
+const gateTimeout = 2 * time.Second
 
 func newSchedSUT() *schedSUT {
 	s := &schedSUT{sut: newSUT(), threads: map[string]*thr{}}
 	model.VerifC13SetGate(func(point string) {
+		t := s.self() // nil: the scheduling goroutine itself runs through
 		switch point {
 		case "delete:before-unlink":
 			s.unlinks++
+			if t != nil && t.isDelete {
+				t.at = point
+				t.parked <- struct{}{}
+				<-t.release
+			}
 		case "update:after-lookup", "lookup:after-miss":
-			t := s.current
-			if t == nil {
-				return // the scheduling goroutine itself: run through
+			if t == nil || t.isDelete {
+				return
 			}
 			t.at = point
 			if point == "update:after-lookup" {
@@ -84,7 +139,6 @@ func newSchedSUT() *schedSUT {
 
 // wait lets goroutine t run until it parks or finishes.
 func (s *schedSUT) wait(t *thr) string {
-	defer func() { s.current = nil }()
 	select {
 	case <-t.parked:
 		if t.at == "lookup:after-miss" {
@@ -122,11 +176,9 @@ func (s *schedSUT) stepThread(t *thr) string {
 	}
 	_, present := s.idx.ShardsForService(t.o.k.a, t.o.k.b)
 	wasLooked := t.at == "update:after-lookup"
-	s.current = t
 	select {
 	case t.release <- struct{}{}:
 	case <-time.After(gateTimeout):
-		s.current = nil
 		return "timeout"
 	}
 	r := s.wait(t)
@@ -154,10 +206,80 @@ func (s *schedSUT) noteCreation(t *thr, presentBefore bool, r string) {
 
 func (s *schedSUT) finishAll() {
 	for _, t := range s.order {
-		for i := 0; i < 12 && !t.finished; i++ {
+		for i := 0; i < 12 && !t.finished && !s.dead; i++ {
 			if s.stepThread(t) == "timeout" {
-				break
+				s.dead = true
 			}
+		}
+	}
+}
+
+// afterDelete waits for the delete goroutine to park at its next unlink or to finish.
+func (s *schedSUT) afterDelete(t *thr) string {
+	select {
+	case <-t.parked:
+		s.inflight = t
+		// nothing that was begun meanwhile may have got past the index lock
+		var early []string
+		for _, w := range s.waiting {
+			if !w.blocked {
+				continue
+			}
+			select {
+			case <-w.parked:
+				w.blocked = false
+				early = append(early, w.name)
+			case <-time.After(blockedWait / 2):
+			}
+		}
+		if len(early) > 0 {
+			s.notAtomic = append(s.notAtomic, early...)
+			return "dparked early=" + strings.Join(early, ",")
+		}
+		return "dparked"
+	case p := <-t.done:
+		t.finished = true
+		s.inflight = nil
+		s.hist[t.hid].fin, s.hist[t.hid].open = s.line, false
+		if p == "crash" {
+			s.crashed = true
+		}
+		// the goroutines that were waiting for the index lock now run to their first gate
+		var toks []string
+		for _, w := range s.waiting {
+			if !w.blocked {
+				continue
+			}
+			w.blocked = false
+			r := s.wait(w)
+			if r == "done orphan" {
+				r = "done Incremental"
+			}
+			toks = append(toks, w.name+":"+strings.ReplaceAll(r, " ", "-"))
+		}
+		s.waiting = nil
+		head := "done " + p
+		if len(toks) > 0 {
+			head += " " + strings.Join(toks, ",")
+		}
+		return s.out(head)
+	case <-time.After(gateTimeout):
+		return "timeout"
+	}
+}
+
+func (s *schedSUT) finishDelete() {
+	for i := 0; i < 64 && s.inflight != nil; i++ {
+		t := s.inflight
+		select {
+		case t.release <- struct{}{}:
+		case <-time.After(gateTimeout):
+			s.dead = true
+			return
+		}
+		if s.afterDelete(t) == "timeout" {
+			s.dead = true
+			return
 		}
 	}
 }
@@ -168,7 +290,13 @@ func (s *schedSUT) apply(f []string) (out string) {
 			s.crashed = true
 			out = "crash"
 		}
+		if strings.HasPrefix(out, "timeout") {
+			s.dead = true // some goroutine hangs: the rest of the case is not worth waiting for
+		}
 	}()
+	if s.dead {
+		return "timeout"
+	}
 	s.line++
 	switch {
 	case f[0] == "begin" && len(f) == 5:
@@ -181,29 +309,71 @@ func (s *schedSUT) apply(f []string) (out string) {
 		s.order = append(s.order, t)
 		t.hid = len(s.hist)
 		s.hist = append(s.hist, histOp{id: t.hid, o: o, start: s.line, open: true})
-		_, presentBefore := s.idx.ShardsForService(o.k.a, o.k.b)
-		s.current = t
-		go func() {
-			defer func() {
-				if r := recover(); r != nil {
-					t.done <- "crash"
+		run := func() string {
+			return pushTok(s.idx.UpdateServiceEndpoints(shardKey(o.sk), o.k.a, o.k.b, o.eps, true))
+		}
+		if s.inflight != nil {
+			// a DeleteShard / PruneShard holds the index lock: the lookup of this update must wait for it
+			t.blocked = true
+			s.spawn(t, run)
+			select {
+			case <-t.parked:
+				t.blocked = false
+				s.notAtomic = append(s.notAtomic, t.name)
+				return "not-blocked parked"
+			case p := <-t.done:
+				t.blocked, t.finished = false, true
+				s.hist[t.hid].fin, s.hist[t.hid].open = s.line, false
+				if len(o.eps) > 0 {
+					s.notAtomic = append(s.notAtomic, t.name)
 				}
-			}()
-			t.done <- pushTok(s.idx.UpdateServiceEndpoints(shardKey(o.sk), o.k.a, o.k.b, o.eps, true))
-		}()
+				return "not-blocked done " + p
+			case <-time.After(blockedWait):
+			}
+			s.waiting = append(s.waiting, t)
+			return "blocked"
+		}
+		_, presentBefore := s.idx.ShardsForService(o.k.a, o.k.b)
+		s.spawn(t, run)
 		r := s.wait(t)
 		if r == "done orphan" { // an empty report has no lookup: never an orphan write
 			r = "done Incremental"
 		}
 		s.noteCreation(t, presentBefore, r)
 		return s.out(r)
+	case f[0] == "dbegin" && (len(f) == 4 && f[2] == "delshard" || len(f) == 5 && f[2] == "prune"):
+		o, ok := parseOp(f[2:])
+		if !ok || s.threads[f[1]] != nil || s.inflight != nil {
+			return "bad-op"
+		}
+		t := &thr{name: f[1], o: o, isDelete: true, release: make(chan struct{}), parked: make(chan struct{}), done: make(chan string, 1)}
+		s.threads[f[1]] = t
+		t.hid = len(s.hist)
+		s.hist = append(s.hist, histOp{id: t.hid, o: o, start: s.line, open: true})
+		s.unlinks = 0
+		s.spawn(t, func() string { return s.run(o) })
+		return s.afterDelete(t)
+	case f[0] == "step" && len(f) == 2 && s.inflight != nil:
+		if s.threads[f[1]] != s.inflight {
+			return "bad-op"
+		}
+		t := s.inflight
+		select {
+		case t.release <- struct{}{}:
+		case <-time.After(gateTimeout):
+			return "timeout"
+		}
+		return s.afterDelete(t)
+	case s.inflight != nil && f[0] != "end":
+		return "bad-op" // the scheduling goroutine must not touch the index while a delete holds its lock
 	case f[0] == "step" && len(f) == 2:
 		t := s.threads[f[1]]
-		if t == nil {
+		if t == nil || t.isDelete {
 			return s.out("idle")
 		}
 		return s.out(s.stepThread(t))
 	case f[0] == "end" && len(f) == 1:
+		s.finishDelete()
 		s.finishAll()
 		final := showIndex(s.idx)
 		u := s.unlinks
@@ -215,7 +385,6 @@ func (s *schedSUT) apply(f []string) (out string) {
 	if !ok {
 		return "bad-op"
 	}
-	s.current = nil
 	p := s.run(o)
 	s.hist = append(s.hist, histOp{id: len(s.hist), o: o, start: s.line, fin: s.line})
 	return s.out(p)
@@ -231,14 +400,25 @@ func (s *schedSUT) linearizable(final string, skip map[int]bool) bool {
 			rem = append(rem, h)
 		}
 	}
+	// depth-first over the orders; a (remaining set, state reached) pair that failed once is not tried again
+	failed := map[string]bool{}
 	var rec func(rem []histOp, prefix []op) bool
 	rec = func(rem []histOp, prefix []op) bool {
+		fresh := newSUT()
+		for _, o := range prefix {
+			fresh.run(o)
+		}
+		state := showIndex(fresh.idx)
 		if len(rem) == 0 {
-			fresh := newSUT()
-			for _, o := range prefix {
-				fresh.run(o)
-			}
-			return showIndex(fresh.idx) == final
+			return state == final
+		}
+		ids := make([]string, len(rem))
+		for i, r := range rem {
+			ids[i] = strconv.Itoa(r.id)
+		}
+		key := strings.Join(ids, ",") + "|" + state
+		if failed[key] {
+			return false
 		}
 		for i, r := range rem {
 			minimal := true
@@ -255,13 +435,17 @@ func (s *schedSUT) linearizable(final string, skip map[int]bool) bool {
 				return true
 			}
 		}
+		failed[key] = true
 		return false
 	}
 	return rec(rem, nil)
 }
 
 func (s *schedSUT) close() {
-	s.finishAll()
+	if !s.dead {
+		s.finishDelete()
+		s.finishAll()
+	}
 	model.VerifC13SetGate(nil)
 }
 
@@ -339,7 +523,50 @@ func genSched(seed uint64, n int, outp string, header string) {
 		var active []string
 		begun := 0
 		steps := 3 + r.Intn(8)
+		deletes := 0
 		for i := 0; i < steps; i++ {
+			if r.Chance(1, 6) && deletes < 2 {
+				// a DeleteShard / PruneShard in its own goroutine, parked at each unlink; updates begun meanwhile
+				// must wait for the index lock
+				name := "D" + strconv.Itoa(deletes)
+				deletes++
+				sk := wire.Pick(r, g.shards)
+				if r.Chance(1, 2) {
+					// several services that only this registry knows: the delete unlinks (and parks at) each of them
+					sk = pair{"Mock", "c9"}
+					for j, m := 0, 2+r.Intn(2); j < m; j++ {
+						out.Line(opLine(op{kind: "upd", sk: sk, k: pair{"d" + strconv.Itoa(j) + ".com", "ns9"}, eps: []*model.IstioEndpoint{genEp(r)}})...)
+					}
+					out.Line("dbegin", name, "delshard", sk.enc())
+				} else if r.Chance(3, 4) {
+					out.Line("dbegin", name, "delshard", sk.enc())
+				} else {
+					out.Line("dbegin", name, "prune", sk.enc(), encPairs(wire.Subset(r, svcUniverse, 1, 3)))
+				}
+				for j, m := 0, r.Intn(3); j < m && begun < nthreads+1; j++ {
+					tn := "T" + strconv.Itoa(begun)
+					begun++
+					o := g.genOp()
+					for o.kind != "upd" || len(o.eps) == 0 {
+						o = g.genOp()
+					}
+					if len(o.eps) > 2 {
+						o.eps = o.eps[:2]
+					}
+					out.Line("begin", tn, o.sk.enc(), o.k.enc(), encEps(o.eps))
+					active = append(active, tn)
+				}
+				for j, m := 0, 1+r.Intn(3); j < m; j++ {
+					out.Line("step", name)
+				}
+				if r.Chance(1, 6) {
+					atomic() // usually refused (bad-op) while the delete is still parked
+				}
+				for j := 0; j < 4; j++ {
+					out.Line("step", name)
+				}
+				continue
+			}
 			switch x := r.Intn(10); {
 			case x < 4 && begun < nthreads:
 				name := "T" + strconv.Itoa(begun)
@@ -382,6 +609,8 @@ func genSched(seed uint64, n int, outp string, header string) {
 // Runs the scripted schedule on the real index and states the concurrent clause of the property
 // directly, with no reference to the Lean model:
 //   never-crashes        no goroutine panics or hangs;
+//   delete-atomic        (assumption of the model, not a clause of the property) DeleteShard / PruneShard hold the
+//                        index lock from start to end: no update begun meanwhile gets past its lookup;
 //   new-service-full     an update that (re-)creates the service's entry returns FullPush;
 //   report-lost          a registry's only report for a (service, registry) cell that no other
 //                        operation of the case touches is in the final index;
@@ -421,6 +650,19 @@ func oracleSched(in, outp string) {
 		if s == nil {
 			return
 		}
+		if s.dead {
+			// a goroutine hangs (possibly holding the index lock): nothing more can be read
+			if verdict == "" {
+				verdict = "FAIL never-crashes goroutine-hangs"
+			}
+			if len(s.notAtomic) > 0 {
+				verdict = "FAIL delete-atomic " + wire.Enc(strings.Join(s.notAtomic, ","))
+			}
+			out.Line(verdict)
+			model.VerifC13SetGate(nil)
+			return
+		}
+		s.finishDelete()
 		s.finishAll()
 		final := showIndex(s.idx)
 		got, _ := snapshotIndex(s.idx)
@@ -436,6 +678,9 @@ func oracleSched(in, outp string) {
 		}
 		if s.crashed {
 			v = "FAIL never-crashes"
+		}
+		if v == "OK" && len(s.notAtomic) > 0 {
+			v = "FAIL delete-atomic " + wire.Enc(strings.Join(s.notAtomic, ","))
 		}
 		if v == "OK" && len(s.newSvcNotFull) > 0 {
 			v = "FAIL new-service-full " + wire.Enc(strings.Join(s.newSvcNotFull, ","))
